@@ -28,7 +28,7 @@ func init() {
 		Assumptions: []string{"encoding/json (Valid, Decoder.Token) is the JSON oracle", "finite floats only, as the property states"},
 		Work:        c15Work,
 		Post: func(a *mc.Agg) []string {
-			return needDims(a, "shape-tree", "alphabet-tree", "escape-1byte", "escape-2byte", "escape-5byte", "number", "reset", "bfs-state")
+			return needDims(a, "shape-tree", "depth-sweep", "alphabet-tree", "escape-1byte", "escape-2byte", "escape-5byte", "number", "reset", "bfs-state")
 		},
 	})
 }
@@ -400,6 +400,59 @@ func c15Work(c *mc.Ctx) {
 				c.Sample(map[string]string{"calls": t.String(), "json": string(j.Done())})
 			}
 		})
+	}
+	// (a') the nesting-depth dimension: towers of every depth 1..D for every container pattern
+	// of period <= 3 (arr/obj), each level with a scalar before and after the nested container
+	// (so every level is re-entered after the deep part closes), and the bare tower without siblings
+	D := 80
+	if c.Tier == "thorough" {
+		D = 300
+	}
+	for _, pat := range []string{"a", "o", "ao", "oa", "aao", "ooa", "aoo", "oao"} {
+		for _, sib := range []int{0, 1, 2} { // no siblings / after only / before and after
+			unit++
+			if !c.Owns(unit) {
+				continue
+			}
+			for d := 1; d <= D; d++ {
+				var build func(level int) *jnode
+				build = func(level int) *jnode {
+					if level == d {
+						return intLeaf()
+					}
+					n := &jnode{kind: "arr"}
+					if pat[level%len(pat)] == 'o' {
+						n.kind = "obj"
+					}
+					add := func(key string, k *jnode) {
+						n.kids = append(n.kids, k)
+						if n.kind == "obj" {
+							n.keys = append(n.keys, key)
+						}
+					}
+					if sib == 2 {
+						add("before", &jnode{kind: "str", s: "b"})
+					}
+					add("deep", build(level+1))
+					if sib >= 1 {
+						add("after", &jnode{kind: "int", i: int64(level)})
+						add("last", &jnode{kind: "arr"})
+					}
+					return n
+				}
+				t := build(0)
+				if !c.Begin(fmt.Sprintf(`{"set":"depth","pattern":%q,"siblings":%d,"depth":%d}`, pat, sib, d)) {
+					continue
+				}
+				c.Dim("depth-sweep")
+				c.NonTrivial()
+				c.Guard("depth|", func() {
+					if checkDoc(c, "depth|", t) {
+						c.Outcome("ok")
+					}
+				})
+			}
+		}
 	}
 	// (b) alphabet substitution into all trees of <= 5 calls
 	for n := 1; n <= 5; n++ {
